@@ -110,12 +110,12 @@ func FieldValue(name string, d *refmodel.Decl, src string, chainID uint64, b *si
 		case "tx_gas_price":
 			return orZero(tx.GasPrice), true
 		case "tx_max_priority_fee_per_gas":
-			if tx.Type != 2 {
+			if !tx.HasFeeCap() {
 				return new(big.Int), true
 			}
 			return orZero(tx.MaxPrio), true
 		case "tx_max_fee_per_gas":
-			if tx.Type != 2 {
+			if !tx.HasFeeCap() {
 				return new(big.Int), true
 			}
 			return orZero(tx.MaxFee), true
